@@ -12,14 +12,14 @@ InputsAll == {
   I("ip4", 443, "https", TRUE, "lit4"), I("ip4port", 8443, "https", TRUE, "lit4"), I("ip6", 443, "https", TRUE, "lit6"),
   I("localhost", 443, "https", TRUE, "loopback") }
 InputsCore == { i \in InputsAll : i.id \in {"host", "host8443", "foo123", "host80", "hostdotport", "httpsdot"} }
-HAll == {"absent", "nx", "servfail", "refused", "notauth", "aliasdot", "svcdot", "svct", "svcself", "unsorted", "poisoned", "cnamed", "loop", "chain1", "chain2",
+HAll == {"absent", "nx", "servfail", "refused", "notauth", "ext16", "ext256", "ext259", "aliasdot", "svcdot", "svct", "svcself", "unsorted", "poisoned", "cnamed", "loop", "chain1", "chain2",
          "chain3", "chain4", "chain6"}
 HSome == {"absent", "svct", "svcself", "chain2"}
-AAll == {"none", "addr", "two", "cname", "foreign", "foreigncname", "cnamebroken", "nx", "servfail", "notauth"}
+AAll == {"none", "addr", "two", "cname", "foreign", "foreigncname", "cnamebroken", "nx", "servfail", "notauth", "ext256", "ext3840"}
 ASome == {"addr", "foreign"}
 A6All == {"none", "addr", "foreigncname", "servfail"}
 A6Some == {"addr"}
-TAll == {"none", "addr", "foreign", "nx"}
+TAll == {"none", "addr", "foreign", "nx", "a4fail"}
 TSome == {"addr"}
 
 Names == {Svcb, N(Origin), N("t"), N("evil"), N("c"), N("unrelated")} \cup AliasNames
